@@ -3,6 +3,8 @@ package props
 import (
 	"bytes"
 	"fmt"
+	"sync"
+	"sync/atomic"
 	"testing"
 
 	"github.com/gogo/protobuf/proto"
@@ -372,6 +374,59 @@ func TestC09(t *testing.T) {
 			}
 		}
 		c.Sig("builder-encode", true)
+	})
+	// the codec used from several goroutines at once (each with its own messages): every encoding and
+	// decoding comes out as it does alone
+	r.Case("concurrent-codec", map[string]any{"goroutines": 8, "messages_each": 300}, func(c *mon.Case) {
+		rr := c.Rand()
+		const G = 8
+		type job struct {
+			node data.UnixFSData
+			want []byte
+		}
+		jobs := make([][]job, G)
+		for g := 0; g < G; g++ {
+			for k := 0; k < 300; k++ {
+				m := msgFor(uint64(rr.Intn(6)), 64|rr.Intn(128), rr.Intn(40)) // the mtime bit always set
+				raw := gen.Encode(rr, m, gen.Pres{Kind: "ordered"})
+				d, err := data.DecodeUnixFSData(raw)
+				if err != nil {
+					continue
+				}
+				jobs[g] = append(jobs[g], job{d, data.EncodeUnixFSData(d)})
+			}
+		}
+		var wg sync.WaitGroup
+		var bad int32
+		var firstBad atomic.Value
+		start := make(chan struct{})
+		for g := 0; g < G; g++ {
+			wg.Add(1)
+			go func(g int) {
+				defer wg.Done()
+				defer func() { recover() }()
+				<-start
+				for rep := 0; rep < 8; rep++ {
+					for _, j := range jobs[g] {
+						enc := data.EncodeUnixFSData(j.node)
+						back, err := data.DecodeUnixFSData(enc)
+						if !bytes.Equal(enc, j.want) || err != nil || !bytes.Equal(data.EncodeUnixFSData(back), j.want) {
+							if atomic.AddInt32(&bad, 1) == 1 {
+								firstBad.Store(fmt.Sprintf("encoding %x while other goroutines encode; alone it is %x (decode error %v)", enc, j.want, err))
+							}
+						}
+					}
+				}
+			}(g)
+		}
+		close(start)
+		wg.Wait()
+		c.Count("encodes_compared", int64(G*8*300))
+		c.Count("concurrent_encodes", int64(G*8*300))
+		if bad > 0 {
+			c.Violation("C09|concurrent-encode-differs", "%d encodings differ under concurrency, first: %v", bad, firstBad.Load())
+		}
+		c.Sig("concurrent-codec", true)
 	})
 	// standalone timestamp and metadata messages
 	r.Case("time-and-metadata", map[string]any{"seconds": len(c09Secs), "nanos": len(c09Nanos)}, func(c *mon.Case) {
